@@ -98,6 +98,15 @@ CHECKS = {
          "Deviations present on the unchanged tree are listed per (mnemonic, operand size, output, shift-count class) in known_findings.json; anything else is a violation with the state as replay."),
    note=TB + "x86ref.py is a hand-written specification (reviewed against the SDM; not verified). Direct branch targets are taken as the operand value (the library resolves displacements before lifting). 16-bit control transfers, bit-string bt with register offsets on memory, divide errors are outside the reference.",
    design='4/C04', category='other'),
+ 'C08': dict(
+   technique='Coq theorem (coincidence lifted to assignment lists: nothing outside get_r can influence any value of ANY lifted list) + dependency and write probing of the implementation-reported sets against the SDM reference and an SSE operand-role table',
+   text=("Theorem (props/C08.v, closed): for every assignment list, valuation, memory and operator interpretation, two states that agree on the union of get_r(mem_read=True) give every assignment the same value; get_w names the destination. "
+         "That settles the IR half for all instructions, x87/MMX/SSE included (uninterpreted operators are universally quantified). Whether the lifted list covers what the PROCESSOR reads and writes is decided on the implementation: "
+         "(A) integer core — each register (8 XOR masks), flag and read byte is perturbed on the SDM reference; a real dependency must be in the reported read set; everything written, every flag left undefined and eip must be in the reported write set; "
+         "(B) MMX/SSE forms (incl. F3/F2 scalar forms) — sources and address registers read, destination written, destination read where it is also a source, implicit operands of pcmp?str?, comis/ucomis/ptest, maskmov, blendv. "
+         "The sets are queried in two call histories (fresh, and after a mem_read=False query on the same objects)."),
+   note=TB + "The reference dependencies come from harness/x86ref.py and the operand-role table in p_c08.py (specifications, reviewed, not verified). get_r/get_w of the model are tied to expression.py by the C16 correspondence.",
+   design='4/C08', category='other'),
  'C12': dict(
    technique='call histories on shared objects in one process; every answer compared with its pure answer (Gallina models Simp.v/EvalAbs.v, which are functions by construction; a fresh process for dis/lift/asm); input re-serialisation, table digests, parser-table cache modes',
    text=("The models of expr_simp / eval_expr / eval_instr are Gallina functions of their explicit arguments (trivially history-independent: props/C12.v); the property is about the implementation, so the check "
